@@ -71,8 +71,18 @@ const CP_TOTAL_CAP: usize = 9;
 enum Item {
     /// a statement whose own result is not judged
     S(String),
-    /// CHECKPOINT ['cp<label>'] + record the observation vector
-    Cp { label: u32, named: bool },
+    /// CHECKPOINT ['<name>'] + record the observation vector. `name` None = 'cp<label>'; a name of the
+    /// form "@idprefix:<label>" stands for the first 8 characters of that checkpoint's id
+    Cp {
+        label: u32,
+        named: bool,
+        #[serde(default)]
+        name: Option<String>,
+    },
+    /// record the observation vector, then run a destructive statement that makes the router take an
+    /// automatic checkpoint (auto_checkpoint on, synchronous entry point); the new `is_auto` checkpoint in
+    /// the list is the one referred to as cp<label>
+    AutoCp { label: u32, stmt: String },
     /// ROLLBACK TO <checkpoint label> + compare
     Rb { label: u32, by_id: bool },
     /// writes that must work
@@ -90,14 +100,17 @@ impl Item {
     fn text(&self) -> String {
         match self {
             Item::S(s) => s.clone(),
-            Item::Cp { label, named } => {
-                if *named {
+            Item::Cp { label, named, name } => {
+                if let (true, Some(n)) = (*named, name) {
+                    format!("CHECKPOINT '{}'            -- (referred to as cp{})", n, label)
+                } else if *named {
                     format!("CHECKPOINT 'cp{}'", label)
                 } else {
                     format!("CHECKPOINT            -- (unnamed; referred to as cp{})", label)
                 }
             }
-            Item::Rb { label, by_id } => format!("ROLLBACK TO {}", if *by_id { format!("'<id of cp{}>'", label) } else { format!("'cp{}'", label) }),
+            Item::Rb { label, by_id } => format!("ROLLBACK TO {}", if *by_id { format!("'<id of cp{}>'", label) } else { format!("'<name of cp{}>' (its id when the name is not unique)", label) }),
+            Item::AutoCp { label, stmt } => format!("{}            -- (destructive: its automatic checkpoint is referred to as cp{})", stmt, label),
             Item::Battery => "-- battery: INSERT/UPDATE/DELETE/CREATE TABLE/CREATE INDEX/NODE CREATE/EDGE CREATE/EMBED STORE must work".into(),
             Item::Hnsw => "-- router.vector().build_and_cache_index(HNSWConfig::default())".into(),
             Item::Btree { table, col } => format!("-- router.relational().create_btree_index(\"{}\", \"{}\")", table, col),
@@ -128,6 +141,14 @@ struct Cfg {
     /// the router's shared store is built with a Bloom filter (TensorStore::with_bloom_filter)
     #[serde(default)]
     bloom: bool,
+    /// checkpoint names come from a pool of near-duplicates (same letters in another ASCII case,
+    /// leading / trailing blanks, the first characters of another checkpoint's id)
+    #[serde(default)]
+    near_names: bool,
+}
+
+fn name_fold(n: &str) -> String {
+    n.trim().to_ascii_lowercase()
 }
 
 #[derive(Clone, Copy, Debug, PartialEq)]
@@ -663,11 +684,22 @@ impl Runner {
         r
     }
 
-    fn do_checkpoint(&mut self, label: u32, named: bool) {
+    fn do_checkpoint(&mut self, label: u32, named: bool, name: Option<&String>) {
         if self.recs.contains_key(&label) {
             return;
         }
-        let text = if named { format!("CHECKPOINT 'cp{}'", label) } else { "CHECKPOINT".to_string() };
+        let wanted: Option<String> = match (named, name) {
+            (false, _) => None,
+            (true, None) => Some(format!("cp{}", label)),
+            (true, Some(n)) => Some(match n.strip_prefix("@idprefix:").and_then(|l| l.parse::<u32>().ok()) {
+                Some(l) => self.recs.get(&l).map(|r| r.id.chars().take(8).collect()).unwrap_or_else(|| format!("cp{}", label)),
+                None => n.clone(),
+            }),
+        };
+        let text = match &wanted {
+            Some(n) => format!("CHECKPOINT '{}'", n),
+            None => "CHECKPOINT".to_string(),
+        };
         // automatic checkpoints made since the last look
         if self.cfg.auto_cp {
             if let Ok(l) = self.list() {
@@ -703,8 +735,25 @@ impl Runner {
                 return;
             }
         };
-        let name = listed.iter().find(|l| l.id == id).map(|l| l.name.clone()).unwrap_or_else(|| if named { format!("cp{}", label) } else { String::new() });
+        let name = listed.iter().find(|l| l.id == id).map(|l| l.name.clone()).unwrap_or_else(|| wanted.clone().unwrap_or_default());
+        if let Some(w) = &wanted {
+            if listed.iter().any(|l| l.id == id) && &name != w {
+                self.viol("checkpoints:listed-name-differs-from-given-name", format!("`{}` created {} but CHECKPOINTS lists it under the name {:?}", text, id, name));
+            }
+            if self.expected.iter().any(|e| e.name != *w && name_fold(&e.name) == name_fold(w)) {
+                count(&mut self.counters, "checkpoints_with_near_duplicate_name", 1);
+            }
+        }
         self.expected.push(Listed { id: id.clone(), name: name.clone(), auto: false });
+        self.check_created(&text, &id, &listed);
+        self.recs.insert(label, CpRec { id, name, obs, legacy_sim_exact: !self.hnsw_live, nonempty: false });
+    }
+
+    /// `expected` already ends with the checkpoint just created (id `id`); apply retention to it where the
+    /// creation stamps allow a verdict, and compare with what CHECKPOINTS lists
+    fn check_created(&mut self, text: &str, id: &str, listed: &[Listed]) {
+        let id = id.to_string();
+        let listed: Vec<Listed> = listed.to_vec();
         if self.cfg.strict_retention {
             while self.expected.len() > self.cfg.max_cp {
                 self.expected.remove(0);
@@ -744,7 +793,59 @@ impl Runner {
         } else if self.cfg.strict_retention {
             count(&mut self.counters, "retention_list_checks_passed", 1);
         }
-        self.recs.insert(label, CpRec { id, name, obs, legacy_sim_exact: !self.hnsw_live, nonempty: false });
+    }
+
+    /// a destructive statement with its automatic checkpoint
+    fn do_auto_cp(&mut self, label: u32, stmt: &str) -> Result<QueryResult, String> {
+        let pre = self.list().unwrap_or_default();
+        self.absorb_auto(&pre);
+        let at_limit = self.cfg.strict_retention && self.expected.len() >= self.cfg.max_cp;
+        let known = self.recs.contains_key(&label);
+        // the image is taken inside the statement, before anything is destroyed
+        let obs = if known { Vec::new() } else { self.observe() };
+        let exact = !self.hnsw_live;
+        let r = self.do_stmt(stmt);
+        if known {
+            return r;
+        }
+        let listed = match self.list() {
+            Ok(l) => l,
+            Err(e) => {
+                self.viol("checkpoints:list-failed", format!("CHECKPOINTS failed after `{}`: {}", stmt, e));
+                return r;
+            }
+        };
+        let new: Vec<Listed> = listed.iter().filter(|l| l.auto && !pre.iter().any(|p| p.id == l.id) && !self.expected.iter().any(|e| e.id == l.id)).cloned().collect();
+        let Some(first) = new.first().cloned() else {
+            // (statement failed before the protection, 0 matching rows, or an async entry point: none is made)
+            count(&mut self.counters, "destructive_steps_without_automatic_checkpoint", 1);
+            // retention may still not have dropped anything
+            if listed.len() != pre.len() {
+                self.check_created(&format!("`{}` (no automatic checkpoint appeared)", stmt), "", &listed);
+            }
+            return r;
+        };
+        count(&mut self.counters, "auto_checkpoints_seen", new.len() as u64);
+        count(&mut self.counters, "auto_checkpoints_recorded", 1);
+        if self.cfg.strict_retention {
+            count(&mut self.counters, "retention_creations_by_auto_checkpoint", 1);
+            if at_limit {
+                count(&mut self.counters, "retention_auto_checkpoints_at_the_limit", 1);
+            }
+        }
+        self.cps_total += new.len();
+        for n in new.iter().rev() {
+            self.expected.push(n.clone());
+        }
+        // creation order: `first` is what the list shows first (newest)
+        if let Some(pos) = self.expected.iter().position(|e| e.id == first.id) {
+            let f = self.expected.remove(pos);
+            self.expected.push(f);
+        }
+        self.label_of.insert(first.id.clone(), label);
+        self.check_created(&format!("{}  (automatic checkpoint {:?})", stmt, first.name), &first.id, &listed);
+        self.recs.insert(label, CpRec { id: first.id.clone(), name: first.name.clone(), obs, legacy_sim_exact: exact, nonempty: r.is_ok() });
+        r
     }
 
     fn do_rollback(&mut self, label: u32, by_id: bool) {
@@ -780,10 +881,17 @@ impl Runner {
             return;
         }
         count(&mut self.counters, "rollbacks_done", 1);
-        if by_id || !name_unique {
+        let by_name = !(by_id || !name_unique);
+        if !by_name {
             count(&mut self.counters, "rollbacks_by_id", 1);
         } else {
             count(&mut self.counters, "rollbacks_by_name", 1);
+            if pre.iter().any(|l| l.id != id && (name_fold(&l.name) == name_fold(&name) || l.id.starts_with(name.trim()))) {
+                count(&mut self.counters, "rollbacks_by_near_duplicate_name", 1);
+            }
+        }
+        if pre.iter().any(|l| l.id == id && l.auto) {
+            count(&mut self.counters, "rollbacks_to_auto_checkpoint", 1);
         }
         if newest_before != Some(label) {
             count(&mut self.counters, "rollbacks_to_non_newest", 1);
@@ -842,6 +950,30 @@ impl Runner {
         if nonempty {
             self.nontrivial_rollbacks += 1;
             count(&mut self.counters, "rollbacks_after_writes", 1);
+        }
+        if !seen.is_empty() {
+            // is the database now exactly what ANOTHER retained checkpoint recorded?
+            let mut other: Option<(u32, String)> = None;
+            for (l2, r2) in self.recs.iter() {
+                if *l2 == label || !pre.iter().any(|p| p.id == r2.id) || r2.obs.len() != now.len() {
+                    continue;
+                }
+                let same = self.queries.iter().enumerate().all(|(i, q)| q.class == "legacy-execute-similar" || differ(&r2.obs[i], &now[i], q.limit).is_none());
+                if same {
+                    other = Some((*l2, r2.name.clone()));
+                    break;
+                }
+            }
+            if let Some((l2, n2)) = other {
+                let first = seen.values().next().map(|x| x.1.clone()).unwrap_or_default();
+                self.viol(
+                    format!("rollback{}:restored-another-checkpoint-than-the-one-{}", self.entry_tag(), if by_name { "named" } else { "identified" }),
+                    format!("`{}` must restore cp{} (name {:?}, id {}) but every observation query now answers as recorded for cp{} (name {:?}); e.g. {}", text, label, name, id, l2, n2, first),
+                );
+                // the per-class differences are consequences of having the wrong image
+                count(&mut self.counters, "differences_explained_by_wrong_image", seen.len() as u64);
+                seen.clear();
+            }
         }
         for (sig, (n, d)) in seen {
             self.viol(sig, format!("{} ({} observation queries of this class/nature differ)", d, n));
@@ -1210,7 +1342,12 @@ impl Runner {
                     src.fed(&item, Some(&r));
                     continue;
                 }
-                Item::Cp { label, named } => self.do_checkpoint(*label, *named),
+                Item::Cp { label, named, name } => self.do_checkpoint(*label, *named, name.as_ref()),
+                Item::AutoCp { label, stmt } => {
+                    let r = self.do_auto_cp(*label, stmt);
+                    src.fed(&item, Some(&r));
+                    continue;
+                }
                 Item::Rb { label, by_id } => self.do_rollback(*label, *by_id),
                 Item::Battery => self.battery(),
                 Item::Hnsw => {
@@ -1252,6 +1389,8 @@ struct World {
 enum Seg {
     Phase(usize),
     Cp,
+    /// a destructive statement that triggers an automatic checkpoint
+    AutoCp,
     Rb,
     Battery,
     Hnsw,
@@ -1271,11 +1410,44 @@ struct Gen {
     next_label: u32,
     pending_rb: Vec<u32>,
     last_rb: Option<u32>,
+    /// unused near-duplicate names
+    name_pool: Vec<String>,
 }
 
 impl Gen {
-    fn new(rng: Rng, cfg: &Cfg, segs: Vec<Seg>) -> Gen {
-        Gen { rng, cfg: cfg.clone(), world: World::default(), snaps: HashMap::new(), segs, seg_pos: 0, left_in_phase: 0, next_label: 1, pending_rb: vec![], last_rb: None }
+    fn new(mut rng: Rng, cfg: &Cfg, segs: Vec<Seg>) -> Gen {
+        let mut name_pool: Vec<String> = Vec::new();
+        if cfg.near_names {
+            let base = ["nightly", "release", "b"][rng.below(3)];
+            let cap = format!("{}{}", base[..1].to_ascii_uppercase(), &base[1..]);
+            name_pool = vec![base.to_string(), cap, base.to_ascii_uppercase(), format!(" {}", base), format!("{} ", base), format!("  {}  ", base.to_ascii_uppercase())];
+            rng.shuffle(&mut name_pool);
+            name_pool.truncate(4);
+        }
+        Gen { rng, cfg: cfg.clone(), world: World::default(), snaps: HashMap::new(), segs, seg_pos: 0, left_in_phase: 0, next_label: 1, pending_rb: vec![], last_rb: None, name_pool }
+    }
+    fn by_id(&mut self) -> bool {
+        if self.cfg.near_names {
+            self.rng.chance(1, 4)
+        } else {
+            self.rng.bool()
+        }
+    }
+    fn destructive(&mut self, view: &View) -> String {
+        if self.cfg.qcache {
+            return format!("DELETE FROM {}", self.some_table(true));
+        }
+        // (DELETE only takes an automatic checkpoint when rows match; NODE DELETE / EMBED DELETE always do)
+        match if self.cfg.strict_retention { 1 + self.rng.below(3) } else { self.rng.below(4) } {
+            0 => format!("DELETE FROM {}", self.some_table(true)),
+            1 => format!("NODE DELETE {}", self.some_node()),
+            _ => {
+                let ex: Vec<String> = self.world.keys.iter().cloned().collect();
+                let _ = view;
+                let k = if !ex.is_empty() && !self.rng.chance(1, 5) { ex[self.rng.below(ex.len())].clone() } else { format!("k{}", self.rng.below(NKEYS)) };
+                format!("EMBED DELETE '{}'", k)
+            }
+        }
     }
     fn lit_b(&mut self) -> String {
         match self.rng.below(5) {
@@ -1452,7 +1624,9 @@ impl Gen {
 
     fn stmt(&mut self, view: &View) -> Item {
         // every destructive statement makes an automatic checkpoint when they are enabled
-        let allow_destructive = !self.cfg.auto_cp || (view.cps_total + 3 < CP_TOTAL_CAP && self.rng.chance(1, 3));
+        // (and in the retention part every checkpoint creation has to be >= 1.1 s after the previous one,
+        // so automatic ones only come from the dedicated steps)
+        let allow_destructive = !self.cfg.auto_cp || (!self.cfg.strict_retention && view.cps_total + 3 < CP_TOTAL_CAP && self.rng.chance(1, 3));
         if self.cfg.btree && !self.world.tables.is_empty() && self.rng.chance(1, 14) {
             let table = self.some_table(true);
             let has_c = self.world.tables.get(&table).map_or(false, |x| x.0);
@@ -1480,7 +1654,8 @@ impl Source for Gen {
             if let Some(l) = self.pending_rb.pop() {
                 if view.listed_labels.contains(&l) {
                     self.last_rb = Some(l);
-                    return Some(Item::Rb { label: l, by_id: self.rng.bool() });
+                    let by_id = self.by_id();
+                    return Some(Item::Rb { label: l, by_id });
                 }
                 continue;
             }
@@ -1494,7 +1669,25 @@ impl Source for Gen {
                     }
                     let label = self.next_label;
                     self.next_label += 1;
-                    return Some(Item::Cp { label, named: self.cfg.strict_retention || self.rng.chance(2, 3) });
+                    let mut name: Option<String> = None;
+                    if self.cfg.near_names && self.rng.chance(3, 4) {
+                        if !view.listed_labels.is_empty() && self.rng.chance(1, 6) {
+                            name = Some(format!("@idprefix:{}", view.listed_labels[self.rng.below(view.listed_labels.len())]));
+                        } else {
+                            name = self.name_pool.pop();
+                        }
+                    }
+                    let named = name.is_some() || self.cfg.strict_retention || self.rng.chance(2, 3);
+                    return Some(Item::Cp { label, named, name });
+                }
+                Seg::AutoCp => {
+                    if view.cps_total + 1 >= CP_TOTAL_CAP {
+                        continue;
+                    }
+                    let label = self.next_label;
+                    self.next_label += 1;
+                    let stmt = self.destructive(view);
+                    return Some(Item::AutoCp { label, stmt });
                 }
                 Seg::Rb => {
                     if view.listed_labels.is_empty() {
@@ -1507,7 +1700,8 @@ impl Source for Gen {
                         _ => any,
                     };
                     self.last_rb = Some(l);
-                    return Some(Item::Rb { label: l, by_id: self.rng.bool() });
+                    let by_id = self.by_id();
+                    return Some(Item::Rb { label: l, by_id });
                 }
                 Seg::RbAllNewestFirst => {
                     // popped from the back; listed_labels is oldest first
@@ -1524,6 +1718,10 @@ impl Source for Gen {
         match item {
             Item::Cp { label, .. } => {
                 self.snaps.insert(*label, self.world.clone());
+            }
+            Item::AutoCp { label, stmt } => {
+                self.snaps.entry(*label).or_insert_with(|| self.world.clone());
+                self.fed(&Item::S(stmt.clone()), res);
             }
             Item::Rb { label, .. } => {
                 if let Some(w) = self.snaps.get(label) {
@@ -1600,6 +1798,10 @@ fn cycle_plan(rng: &mut Rng, cfg: &Cfg) -> Vec<Seg> {
         segs.push(Seg::Cp);
         cps_left -= 1;
         segs.push(Seg::Phase(phase_len(rng, false)));
+        if cfg.auto_cp && rng.chance(1, 2) {
+            segs.push(Seg::AutoCp);
+            segs.push(Seg::Phase(phase_len(rng, true)));
+        }
         if cps_left > 0 && rng.bool() {
             segs.push(Seg::Cp);
             cps_left -= 1;
@@ -1634,8 +1836,20 @@ fn cycle_plan(rng: &mut Rng, cfg: &Cfg) -> Vec<Seg> {
 fn retention_plan(rng: &mut Rng, cfg: &Cfg) -> Vec<Seg> {
     let m = 1 + rng.below(2);
     let mut segs = vec![Seg::Phase(3 + rng.below(5))];
-    for _ in 0..cfg.max_cp + m {
-        segs.push(Seg::Cp);
+    // with automatic checkpoints on, manual and automatic creations are mixed, and at least one automatic
+    // one comes when the list is already full
+    let n = cfg.max_cp + m;
+    let mut kinds: Vec<Seg> = (0..n).map(|_| if cfg.auto_cp && rng.chance(2, 5) { Seg::AutoCp } else { Seg::Cp }).collect();
+    if cfg.auto_cp {
+        let at = cfg.max_cp + rng.below(m);
+        kinds[at] = Seg::AutoCp;
+    }
+    for k in kinds {
+        if k == Seg::AutoCp {
+            // something to destroy: the statement is chosen among existing things
+            segs.push(Seg::Phase(2));
+        }
+        segs.push(k);
         segs.push(Seg::Sleep(1100));
         segs.push(Seg::Phase(2 + rng.below(5)));
     }
@@ -1660,11 +1874,15 @@ fn cycle_cfg(rng: &mut Rng) -> Cfg {
         btree: (6..10).contains(&variant),
         async_mode: mode,
         bloom: rng.chance(1, 4),
+        near_names: rng.chance(1, 2),
     }
 }
 
 fn retention_cfg(rng: &mut Rng) -> Cfg {
-    Cfg { auto_cp: false, qcache: false, dim: 4, max_cp: 1 + rng.below(3), strict_retention: true, hnsw: false, btree: false, async_mode: [0u8, 1, 2, 3, 4, 5][rng.below(6)], bloom: rng.chance(1, 4) }
+    let auto_cp = rng.chance(3, 5);
+    // an automatic checkpoint is only taken on the synchronous side (inside a tokio runtime the router skips it)
+    let async_mode = if auto_cp { [0u8, 1, 3, 4, 5][rng.below(5)] } else { [0u8, 1, 2, 3, 4, 5][rng.below(6)] };
+    Cfg { auto_cp, qcache: false, dim: 4, max_cp: 1 + rng.below(3), strict_retention: true, hnsw: false, btree: false, async_mode, bloom: rng.chance(1, 4), near_names: rng.chance(1, 2) }
 }
 
 // ------------------------------------------------------------------------------------------------
@@ -1796,6 +2014,9 @@ fn report_outcome(part: &str, case_seed: u64, cfg: &Cfg, o: Outcome, report: &mu
     if cfg.bloom {
         report.count("cases_with_bloom_filter_store", 1);
     }
+    if cfg.near_names {
+        report.count("cases_with_near_duplicate_names", 1);
+    }
     if cfg.dim == 384 {
         report.count("cases_with_384_dim_vectors", 1);
     }
@@ -1891,7 +2112,7 @@ fn main() {
         }
     } else {
         let n_cycle = args.by_tier(260u64, 6_000u64);
-        let n_ret = args.by_tier(10u64, 80u64);
+        let n_ret = args.by_tier(13u64, 100u64);
         let stride = n_cycle / n_ret;
         let n_total = n_cycle + n_ret;
         let rep = par_cases(args.threads, args.seed, n_total, args.budget(75, 900), |i, s, r| {
@@ -1913,10 +2134,12 @@ fn main() {
 
     let meta = Meta {
         property: "C08",
-        rule: "one evaluation = one program run on a fresh QueryRouter (blob + checkpoint manager initialised): <=40 random relational/graph/vector statements per phase, 1-4 manual checkpoints (named or unnamed; plus automatic ones before destructive statements in a quarter of the cases), 1-6 rollbacks to any still-listed checkpoint by id or by name (newest, older, or the same one again), must-work write batteries, further phases and cycles. At every CHECKPOINT the observation vector (about 370 read statements through execute_parsed: SHOW TABLES, DESCRIBE, per-table scan / int equality / text equality / int, text and float range / COUNT(*) selects over 4 tables with and without hash index, NODE GET + NEIGHBORS x3 + EDGE GET for ids 1..48, NODE/EDGE LIST, FIND NODE/EDGE, CONSTRAINT LIST, GRAPH INDEX SHOW, EMBED GET per key, SIMILAR by vector in 3 metrics and by key, COUNT/SHOW EMBEDDINGS; plus 4 SIMILAR statements through the legacy execute path) is recorded and must be answered identically right after ROLLBACK TO that checkpoint; after a rollback INSERT/UPDATE (equality, range and text conditions)/DELETE/CREATE TABLE/CREATE INDEX/NODE CREATE/EDGE CREATE/EMBED STORE must succeed, be visible and leave all other rows/nodes/edges untouched; CHECKPOINTS must list the same set before and after a rollback, every created checkpoint is listed and every listed one can be restored. Retention part: max N in 1..3, N+1..N+2 named checkpoints created >= 1.1 s apart, listed set must be exactly the newest min(i,N) after every creation, then every retained checkpoint is rolled back to (newest first) and compared. Distinct by the hash of the executed item texts; non-trivial if at least one rollback was compared whose checkpoint was followed by a successful write.",
+        rule: "one evaluation = one program run on a fresh QueryRouter (blob + checkpoint manager initialised): <=40 random relational/graph/vector statements per phase, 1-4 manual checkpoints (named or unnamed; plus automatic ones before destructive statements in a quarter of the cases), 1-6 rollbacks to any still-listed checkpoint by id or by name (newest, older, or the same one again), must-work write batteries, further phases and cycles. At every CHECKPOINT the observation vector (about 370 read statements through execute_parsed: SHOW TABLES, DESCRIBE, per-table scan / int equality / text equality / int, text and float range / COUNT(*) selects over 4 tables with and without hash index, NODE GET + NEIGHBORS x3 + EDGE GET for ids 1..48, NODE/EDGE LIST, FIND NODE/EDGE, CONSTRAINT LIST, GRAPH INDEX SHOW, EMBED GET per key, SIMILAR by vector in 3 metrics and by key, COUNT/SHOW EMBEDDINGS; plus 4 SIMILAR statements through the legacy execute path) is recorded and must be answered identically right after ROLLBACK TO that checkpoint; after a rollback INSERT/UPDATE (equality, range and text conditions)/DELETE/CREATE TABLE/CREATE INDEX/NODE CREATE/EDGE CREATE/EMBED STORE must succeed, be visible and leave all other rows/nodes/edges untouched; CHECKPOINTS must list the same set before and after a rollback, every created checkpoint is listed and every listed one can be restored. Retention part: max N in 1..3, N+1..N+2 checkpoints created >= 1.1 s apart - manual CHECKPOINT statements and, in three fifths of the cases, automatic checkpoints taken by the router before a destructive statement (NODE DELETE / EMBED DELETE with auto_checkpoint on), at least one of them when the list is already full - the listed set must be exactly the newest min(i,N) after every creating step of either kind, then every retained checkpoint (automatic ones against the observation vector recorded right before their statement) is rolled back to (newest first) and compared. In half of all cases checkpoint names come from a pool of near-duplicates (same letters in another ASCII case, leading/trailing blanks, the first 8 characters of another checkpoint's id) and three quarters of the rollbacks there go by name; a name that is listed exactly once must restore exactly that checkpoint. Distinct by the hash of the executed item texts; non-trivial if at least one rollback was compared whose checkpoint was followed by a successful write.",
         assumptions: vec![
             "set-valued answers (rows, node/edge lists, neighbour ids, key lists) are compared as sets; SIMILAR answers on bit-exact scores and on keys except inside a score tie cut by LIMIT".into(),
             "checkpoint creation stamps have 1 s granularity: the retention oracle only judges creations >= 1.1 s apart; in all other programs max_checkpoints = 100 so retention never acts".into(),
+            "an automatic checkpoint holds the database as it was right before its destructive statement; whether one is taken at all is not judged (best effort in the code, skipped inside a tokio runtime), only what is listed afterwards".into(),
+            "ROLLBACK TO by name is only issued when exactly one listed checkpoint carries exactly that name and no listed id equals it; otherwise the id is used".into(),
             "ROLLBACK TO is not a retention event: the set listed by CHECKPOINTS may not change across it".into(),
             "legacy-path SIMILAR answers recorded while a VectorEngine HNSW cache built by the harness was live are approximate and are not compared; a correct rollback is expected to invalidate that cache like every write path of VectorEngine does".into(),
             "an index built with QueryRouter::build_vector_index() is never built: it is a manual snapshot no write refreshes and its scores differ from the exact search in the last bit".into(),
@@ -1938,6 +2161,11 @@ fn main() {
                 ("rollbacks_through_async_entry", args.by_tier(30, 600)),
                 ("rollbacks_through_statement_entry", args.by_tier(30, 600)),
                 ("cases_with_bloom_filter_store", args.by_tier(15, 300)),
+                ("retention_auto_checkpoints_at_the_limit", args.by_tier(3, 30)),
+                ("auto_checkpoints_recorded", args.by_tier(15, 300)),
+                ("rollbacks_to_auto_checkpoint", args.by_tier(5, 100)),
+                ("checkpoints_with_near_duplicate_name", args.by_tier(30, 600)),
+                ("rollbacks_by_near_duplicate_name", args.by_tier(15, 300)),
                 ("write_statements_ok", args.by_tier(1_000, 20_000)),
             ]
         },
